@@ -101,3 +101,11 @@ Theorem C12_translated_tournament_pair mx fs j0 j1 :
   nth (first_arg mx (take_idx 0%Z fs [j0; j1])) [j0; j1] O = nth (tournament_pick mx (nth j0 fs 0%Z) (nth j1 fs 0%Z)) [j0; j1] O.
 Proof. exact (tournament_pair mx fs j0 j1). Qed.
 Print Assumptions C12_translated_tournament_pair.
+
+(* DE.run / SHADE.run as a whole (translated data flow; mutation, crossover and evaluate are abstract stages): the one-to-one replacement
+   compares the PARENTS handed in with the trial made from those same parents *)
+Theorem C12_translated_DE_run {G} (mutation : pop (G:=G) -> pop) crossover evaluate mx (parents : pop (G:=G)) :
+  pf (gen_DE_run mutation crossover evaluate mx parents) = de_select mx (pf (evaluate (crossover parents (mutation parents)))) (pf parents) /\
+  pf (gen_SHADE_run mutation crossover evaluate mx parents) = de_select mx (pf (evaluate (crossover parents (mutation parents)))) (pf parents).
+Proof. exact (conj (DE_run_fits mutation crossover evaluate mx parents) (SHADE_run_fits mutation crossover evaluate mx parents)). Qed.
+Print Assumptions C12_translated_DE_run.
